@@ -151,14 +151,18 @@ func (m *MatchDNS) Match(cx *layer4.Connection) (bool, error) {
 				return false, nil
 			}
 
-			denied := m.Deny.Match(cx.Context, classValue, typeValue, q.Name)
+			// Domain names are case-insensitive (RFC 4343) and resolvers may randomise the case of query names,
+			// so present the name to the rules in lower case, as the documentation of MatchDNSRule promises.
+			nameValue := strings.ToLower(q.Name)
+
+			denied := m.Deny.Match(cx.Context, classValue, typeValue, nameValue)
 			// If only deny rules are provided, filter out DNS request messages with denied question sections.
 			// In other words, allow all unless explicitly denied.
 			if hasNoAllow && !hasNoDeny && denied {
 				return false, nil
 			}
 
-			allowed := m.Allow.Match(cx.Context, classValue, typeValue, q.Name)
+			allowed := m.Allow.Match(cx.Context, classValue, typeValue, nameValue)
 			// If only allow rules are provided, filter out DNS request messages with not allowed question sections.
 			// In other words, deny all unless explicitly allowed.
 			if hasNoDeny && !hasNoAllow && !allowed {
